@@ -151,6 +151,14 @@ func starts_with(xs []MalType, sym string) bool {
 	return false
 }
 
+// second returns the operand of (unquote x) / (splice-unquote x), nil when it is missing
+func second(xs []MalType) MalType {
+	if len(xs) < 2 {
+		return nil
+	}
+	return xs[1]
+}
+
 func qq_loop(xs []MalType) MalType {
 	acc := NewList()
 	for i := len(xs) - 1; 0 <= i; i -= 1 {
@@ -158,7 +166,7 @@ func qq_loop(xs []MalType) MalType {
 		switch e := elt.(type) {
 		case List:
 			if starts_with(e.Val, "splice-unquote") {
-				acc = NewList(Symbol{Val: "concat"}, e.Val[1], acc)
+				acc = NewList(Symbol{Val: "concat"}, second(e.Val), acc)
 				continue
 			}
 		default:
@@ -176,7 +184,7 @@ func quasiquote(ast MalType) MalType {
 		return NewList(Symbol{Val: "quote"}, ast)
 	case List:
 		if starts_with(a.Val, "unquote") {
-			return a.Val[1]
+			return second(a.Val)
 		} else {
 			return qq_loop(a.Val)
 		}
@@ -449,11 +457,18 @@ func EVAL(ctx context.Context, ast MalType, env EnvType) (res MalType, e error) 
 			ast = quasiquote(a1)
 		case "defmacro":
 			fn, e := EVAL(ctx, a2, env)
-			fn = fn.(MalFunc).SetMacro()
 			if e != nil {
 				return nil, e
 			}
-			return env.Set(a1.(Symbol), fn), nil
+			malFn, ok := fn.(MalFunc)
+			if !ok {
+				return nil, lisperror.NewLispError(fmt.Errorf("defmacro: cannot use '%T' as macro", fn), ast)
+			}
+			name, ok := a1.(Symbol)
+			if !ok {
+				return nil, lisperror.NewLispError(fmt.Errorf("cannot use '%T' as identifier", a1), ast)
+			}
+			return env.Set(name, malFn.SetMacro()), nil
 		case "macroexpand":
 			return macroexpand(ctx, a1, env)
 		case "try":
@@ -479,6 +494,9 @@ func EVAL(ctx context.Context, ast MalType, env EnvType) (res MalType, e error) 
 			switch first(last) {
 			case "catch":
 				finallyDo = nil
+				if len(last.(List).Val) < 2 {
+					return nil, lisperror.NewLispError(errors.New("catch must have 2 arguments at least"), ast)
+				}
 				catchBind = last.(List).Val[1]
 				catchDo = List{Val: last.(List).Val[2:]}
 				tryDo = List{Val: lst[1 : len(lst)-1]}
@@ -489,6 +507,9 @@ func EVAL(ctx context.Context, ast MalType, env EnvType) (res MalType, e error) 
 				finallyDo = List{Val: last.(List).Val[1:]}
 				switch first(prelast) {
 				case "catch":
+					if len(prelast.(List).Val) < 2 {
+						return nil, lisperror.NewLispError(errors.New("catch must have a variable name"), ast)
+					}
 					catchBind = prelast.(List).Val[1]
 					catchDo = List{Val: prelast.(List).Val[2:]}
 					tryDo = List{Val: lst[1 : len(lst)-2]}
@@ -563,6 +584,9 @@ func EVAL(ctx context.Context, ast MalType, env EnvType) (res MalType, e error) 
 				ast = a2
 			}
 		case "fn":
+			if len(ast.(List).Val) < 2 {
+				return nil, lisperror.NewLispError(errors.New("fn requires a parameter list"), ast)
+			}
 			fn := MalFunc{
 				Eval:    EVAL,
 				Exp:     List{Val: append([]MalType{Symbol{Val: "do"}}, ast.(List).Val[2:]...)},
@@ -614,7 +638,7 @@ func EVAL(ctx context.Context, ast MalType, env EnvType) (res MalType, e error) 
 }
 
 func first(list MalType) string {
-	if list != nil && Q[List](list) && Q[Symbol](list.(List).Val[0]) {
+	if list != nil && Q[List](list) && len(list.(List).Val) > 0 && Q[Symbol](list.(List).Val[0]) {
 		return list.(List).Val[0].(Symbol).Val
 	}
 	return ""
